@@ -318,7 +318,14 @@ seed("C15-r3-2", "C15", "fractional extra_prec_multiplier truncated before it is
 seed("C15-r3-3", "C15", "float16 evaluated in a 24-bit context and rounded a second time", "float16, default settings, the handful of inputs whose value sits next to an 11-bit tie (exp 2, log 1, arctan 3, arcsinh 2 inputs)", "C15 quick: backend-float16-default-result",
      first_result="missed (HELD): transcendental functions were judged only with >= 2p extra bits", strengthened="exp, log, arctan, arcsinh, sqrt at default settings on every normal float16 input (exhaustive)")
 
+# seeds whose original patch stopped applying after a later "fix:" commit touched the same lines: the same change re-made by hand on the current HEAD
+REBASED = {"C11-1": "fix 981e64c (mul_dekker assume_fma + fix_overflow) rewrote the lines around the dropped abs()",
+           "C09-1": "fix fbe2df5 (owners of joined reference names) added lines where the digest shortening was inserted",
+           "C13-r2-3": "the multiword2mpf([]) fix added an early return in the function the change wraps in workprec"}
+
 for id_, meta in T.items():
+    if id_ in REBASED:
+        meta["rebased"] = dict(why=REBASED[id_], original_patch="patch-original.diff", note="patch.diff is the same change applied to the current HEAD; confirmed again there")
     d = os.path.join(ROOT, id_)
     if not os.path.isdir(d):
         continue
